@@ -27,20 +27,78 @@ theorem repOf_repCode (r : Option Schema.Rep) : repOf (r.map repCode) = .ok r :=
 
 theorem natCast_not_neg (n : Nat) : ¬ ((n : Int) < 0) := by omega
 
+/-! ### the LogicalType union -/
+
+theorem timeUnitOf_TV (u : Schema.AnnotTimeUnit) :
+    (match annotUnitTV u with
+     | .struct fs => timeUnitOf fs
+     | _ => .error .footerNotThrift) = .ok u := by
+  cases u <;> rfl
+
+theorem annotUnitTV_struct (u : Schema.AnnotTimeUnit) : ∃ fs, annotUnitTV u = .struct fs ∧ timeUnitOf fs = .ok u := by
+  cases u <;> exact ⟨_, rfl, rfl⟩
+
+/-- the annotation is read back from the union value that states it -/
+theorem logicalTypeOf_TV (a : Schema.Annotation) :
+    ∃ fs, annotationTV a = .struct fs ∧ logicalTypeOf fs = .ok (some a) := by
+  cases a with
+  | decimal s p => exact ⟨_, rfl, rfl⟩
+  | time utc u =>
+    cases u <;> cases utc <;> exact ⟨_, rfl, by decide⟩
+  | timestamp utc u =>
+    cases u <;> cases utc <;> exact ⟨_, rfl, by decide⟩
+  | integer bw sg => cases sg <;> exact ⟨_, rfl, rfl⟩
+  | _ => exact ⟨_, rfl, by decide⟩
+
+theorem optLogicalTypeOf_absent (fs : Fields) (h : field? fs 10 = none) : optLogicalTypeOf fs = .ok none := by
+  simp [optLogicalTypeOf, getStruct, h]
+
+theorem optLogicalTypeOf_struct (fs u : Fields) (a : Schema.Annotation) (h : field? fs 10 = some (.struct u))
+    (hr : logicalTypeOf u = .ok (some a)) : optLogicalTypeOf fs = .ok (some a) := by
+  simp [optLogicalTypeOf, getStruct, h, hr]
+
+theorem optLogicalTypeOf_present (fs : Fields) (a : Schema.Annotation) (h : field? fs 10 = some (annotationTV a)) :
+    optLogicalTypeOf fs = .ok (some a) := by
+  obtain ⟨u, hu, hr⟩ := logicalTypeOf_TV a
+  simp [optLogicalTypeOf, getStruct, h, hu, hr]
+
+/-- the fields of a SchemaElement value in front of field 10 -/
+def seFieldsBase (e : Schema.Element) : Fields :=
+  optField 1 (fun n : Nat => .i32 n) e.info.ptype ++
+   (if e.info.typeLength = 0 then [] else [(2, .i32 e.info.typeLength)]) ++
+   optField 3 (fun r => .i32 (repCode r)) e.info.rep ++
+   [(4, .binary (strBytes e.info.name))] ++
+   (if e.numChildren = 0 then [] else [(5, .i32 e.numChildren)]) ++
+   optField 6 (fun n : Nat => .i32 n) e.info.logical
+
+theorem annotationTV_ty (a : Schema.Annotation) : (annotationTV a).ty = .struct := by cases a <;> rfl
+
 theorem schemaElementOf_TV (e : Schema.Element) :
     (match schemaElementTV e [] with
      | .struct fs => schemaElementOf fs
      | _ => .error .footerNotThrift) = .ok e := by
-  obtain ⟨⟨name, rep, pt, tl, lg⟩, nc⟩ := e
+  obtain ⟨⟨name, rep, pt, tl, lg, lt⟩, nc⟩ := e
   simp only [schemaElementTV, withExtras_nil]
   unfold schemaElementOf
   have hrep : ∀ r : Schema.Rep, repOf (some (repCode r)) = .ok (some r) := fun r => by cases r <;> rfl
-  cases pt <;> cases rep <;> cases lg <;> by_cases ht : tl = 0 <;> by_cases hn : nc = 0 <;>
-    simp only [optField, ht, hn, if_true, if_false, List.nil_append, List.cons_append, List.append_nil] <;>
-    rw [checkStruct_of _ _ rfl rfl] <;>
-    simp [bind, Except.bind, pure, Except.pure, getBin, getInt, field?, intOf, bytesStr_strBytes, optNatField, hrep,
-      natCast_not_neg] <;>
-    first | rfl | (simp [repOf])
+  cases lt with
+  | none =>
+    cases pt <;> cases rep <;> cases lg <;> by_cases ht : tl = 0 <;> by_cases hn : nc = 0 <;>
+      simp only [optField, ht, hn, if_true, if_false, List.nil_append, List.cons_append, List.append_nil] <;>
+      rw [checkStruct_of _ _ rfl rfl, optLogicalTypeOf_absent _ rfl] <;>
+      simp [bind, Except.bind, pure, Except.pure, getBin, getInt, field?, intOf, bytesStr_strBytes, optNatField, hrep,
+        natCast_not_neg] <;>
+      first | rfl | (simp [repOf])
+  | some a =>
+    obtain ⟨u, hu, hr⟩ := logicalTypeOf_TV a
+    simp only [optField]
+    rw [hu]
+    cases pt <;> cases rep <;> cases lg <;> by_cases ht : tl = 0 <;> by_cases hn : nc = 0 <;>
+      simp only [optField, ht, hn, if_true, if_false, List.nil_append, List.cons_append, List.append_nil] <;>
+      rw [checkStruct_of _ _ rfl rfl, optLogicalTypeOf_struct _ u a rfl hr] <;>
+      simp [bind, Except.bind, pure, Except.pure, getBin, getInt, field?, intOf, bytesStr_strBytes, optNatField, hrep,
+        natCast_not_neg] <;>
+      first | rfl | (simp [repOf])
 
 /-! ### lists of structs -/
 
@@ -56,7 +114,8 @@ def seFields (e : Schema.Element) : Fields :=
    optField 3 (fun r => .i32 (repCode r)) e.info.rep ++
    [(4, .binary (strBytes e.info.name))] ++
    (if e.numChildren = 0 then [] else [(5, .i32 e.numChildren)]) ++
-   optField 6 (fun n : Nat => .i32 n) e.info.logical
+   optField 6 (fun n : Nat => .i32 n) e.info.logical ++
+   optField 10 annotationTV e.info.logicalType
 
 theorem schemaElementTV_eq (e : Schema.Element) : schemaElementTV e [] = .struct (seFields e) := rfl
 
